@@ -13,6 +13,7 @@ pub mod c04;
 pub mod c05;
 pub mod c06;
 pub mod c07;
+pub mod c08;
 pub mod c09;
 pub mod session;
 pub mod c10;
@@ -22,6 +23,7 @@ pub mod c13;
 pub mod c14;
 pub mod c15;
 pub mod c16;
+pub mod c18;
 pub mod c19;
 
 pub const ALL: &[Prop] = &[
@@ -32,6 +34,7 @@ pub const ALL: &[Prop] = &[
     Prop { id: "C05", run: c05::run, parts: c05::parts },
     Prop { id: "C06", run: c06::run, parts: c06::parts },
     Prop { id: "C07", run: c07::run, parts: c07::parts },
+    Prop { id: "C08", run: c08::run, parts: c08::parts },
     Prop { id: "C09", run: c09::run, parts: c09::parts },
     Prop { id: "C10", run: c10::run, parts: c10::parts },
     Prop { id: "C11", run: c11::run, parts: c11::parts },
@@ -40,5 +43,6 @@ pub const ALL: &[Prop] = &[
     Prop { id: "C14", run: c14::run, parts: c14::parts },
     Prop { id: "C15", run: c15::run, parts: c15::parts },
     Prop { id: "C16", run: c16::run, parts: c16::parts },
+    Prop { id: "C18", run: c18::run, parts: c18::parts },
     Prop { id: "C19", run: c19::run, parts: c19::parts },
 ];
